@@ -22,6 +22,7 @@ import (
 	"verif/lib/recfs"
 	"verif/lib/runner"
 	"verif/lib/snapx"
+	"verif/lib/vexp"
 )
 
 type viol struct{ key, msg string }
@@ -456,6 +457,15 @@ func main() {
 		return
 	}
 	runner.Main(runner.Check{
+		RacePass: func(n int, scratch string) (int, []string) {
+			total, ps := 0, []string(nil)
+			for _, sc := range concScens() {
+				d, p := vexp.RacePass(concScenario(sc, scratch, false), n)
+				total += d
+				ps = append(ps, p...)
+			}
+			return total, ps
+		},
 		ID:    "C08",
 		Level: "model_checking",
 		Rule:  "breadth-first search over all histories (depth <= 4 quick / 5 thorough) of {Prepare(k,parent[,target]), View, Commit, Mounts, Remove, Stat, Update(+label), Cleanup, Walk, Close} over keys {k1,k2}, names/targets {T1,T2}, parents {\"\",T1,T2} on the real snapshotter (real bolt metadata, real directories), sync and AsynchronousRemove; every backend Mount/Check/Unmount answer ok|fail with <= 1 (quick) / 2 (thorough) failures per history; states deduplicated on (metadata without timestamps, snapshots/ listing, backend mount table, failures used) with ids abstracted; invariants (a)-(e) of the statement evaluated on every transition. non-trivial = executed transition that made at least one backend call or changed the canonical state",
